@@ -157,7 +157,10 @@ mod introspect_support {
     pub fn check_interface(sink: &mut Sink<'_>, what: &str, iface: &idl::Interface<'_>) {
         let want = lift(iface);
         let text = iface.to_string();
-        let node = if want.has_commented_variant() { ":custom-enum-with-commented-variant" } else { "" };
+        // the listed finding (enum with a commented variant rendered without commas) covers this
+        // interface only if putting those commas in is all it takes
+        let only_commas = want.has_commented_variant() && idl::Interface::try_from(simnet::idlref::add_missing_enum_commas(&text).as_str()).map_or(false, |p| lift(&p) == want);
+        let node = if only_commas { ":custom-enum-with-commented-variant" } else { "" };
         match idl::Interface::try_from(text.as_str()) {
             Ok(p) => {
                 let got = lift(&p);
